@@ -336,12 +336,20 @@ impl RtMessage {
             result.push_str(&value.len().to_string());
             result.push_str(") = ");
 
-            if tag.is_nested() {
-                let nested_msg = RtMessage::from_bytes(value).unwrap();
-                result.push_str(&nested_msg.to_string(indent_level + 1))
+            // The value of a nested tag is untrusted input and may not be a valid message,
+            // in which case it is shown as hex like any other value
+            let nested_msg = if tag.is_nested() {
+                RtMessage::from_bytes(value).ok()
             } else {
-                result.push_str(&HEX.encode(value));
-                result.push('\n');
+                None
+            };
+
+            match nested_msg {
+                Some(msg) => result.push_str(&msg.to_string(indent_level + 1)),
+                None => {
+                    result.push_str(&HEX.encode(value));
+                    result.push('\n');
+                }
             }
         }
 
